@@ -151,6 +151,17 @@ CHECKS = {
         ),
         design_ref="DESIGN.md §4 C14",
     ),
+    "C15": dict(
+        technique="Lean 4 proof (block-wise reader over content with holes: prefix / completeness theorems for AKAI and Roland chains at every cut) + truncation sweep of the real tool tied to the model",
+        text=(
+            "Machine-checked (data path, all chains / windows / cuts): C15_read_prefix (pieces that are prefixes of full sectors => the forward block read is a prefix of the read over the complete chain), C15_read_is_window_prefix (never bytes from elsewhere), "
+            "C15_complete_forward / _reversed (nothing missing => the whole window), C15_akai_audio_prefix and C15_roland_audio_prefix (instances for a partition / image cut at any byte, any chain order), C15_wav (= C04: whatever PCM results the file is well formed). "
+            "NOT proved: the directory path (which files are reported at all) and the reverse-mode prefix; both are validated by the sweep. "
+            "Tie + oracle: generated AKAI (directories before/after data, pairs), Roland and CDDA images cut at every sector/cluster/frame boundary (-1,0,+1), inside every partition header field, the tables, directories, parameter areas and random offsets; each reported file must be a well-formed WAV whose PCM is a prefix of the complete run's, each file lying before the cut must be exported complete; AKAI/Roland cut images also go through the Lean model (export + ls). "
+            "Found and fixed: 51a0010 (short header read aborted the export), 36640b1 (struct.error from a cut partition header)."
+        ),
+        design_ref="DESIGN.md §4 C15",
+    ),
     "C16": dict(
         technique="Lean 4 proof over an explicit object-state machine (answers do not read the state) + history correspondence against fresh objects",
         text=(
